@@ -42,6 +42,12 @@ URLS = [
     ('ws://example.com:80/explicit-default', 'example.com', 80, '/explicit-default', False),
     ('ws://example.com/%7Euser/a%20b?q=%26', 'example.com', 80, '/%7Euser/a%20b?q=%26', False),
     ('ws://10.1.2.3:9001/ip', '10.1.2.3', 9001, '/ip', False),
+    # userinfo in the URL is not part of the host
+    ('ws://alice:s3cret@example.com:8081/u', 'example.com', 8081, '/u', False),
+    ('ws://bob@example.com/only-user', 'example.com', 80, '/only-user', False),
+    ('wss://carol:pw@secure.example.org:9443/', 'secure.example.org', 9443, '/', True),
+    # a resource outside ASCII
+    ('ws://example.com/caf\u00e9/\u2603?name=J\u00fcrgen', 'example.com', 80, '/caf\u00e9/\u2603?name=J\u00fcrgen', False),
     # IPv6 literals: the Host header needs the brackets (RFC 7230 5.4, RFC 3986 3.2.2)
     ('ws://[::1]:8080/chat', '::1', 8080, '/chat', False),
     ('ws://[2001:db8::5]/', '2001:db8::5', 80, '/', False),
@@ -81,6 +87,10 @@ def reply_variants(rnd, tier):
     out.append(('ok-http10-version', dict(version='HTTP/1.0'), 'unjudged'))
     out.append(('ok-ext', dict(extra=[('Sec-WebSocket-Extensions', 'permessage-deflate; server_max_window_bits=12')]), 'ready'))
     out.append(('ok-pad-16384', dict(pad_to=16384), 'ready'))
+    # header COUNT instead of header size: hundreds of small headers around the deciding ones
+    out.append(('ok-150-headers-first', dict(many_front=150), 'ready'))
+    out.append(('ok-150-headers-last', dict(many_back=150), 'ready'))
+    out.append(('ok-300-headers-protocol-last', dict(many_front=150, many_back=150, extra_last=[('Sec-WebSocket-Protocol', 'chat')]), 'ready'))
     out.append(('ok-pad-16000', dict(pad_to=16000), 'ready'))
     # wrong accept family
     for acc in ('missing', 'lower', 'upper', 'swap', 'trunc', 'nopad', 'extrapad', 'empty', 'other_key', 'key_itself',
@@ -358,7 +368,7 @@ def judge_reply(run, w, exp, spec, frames_follow):
         ev = run.events[run.names.index('ready')]
         want_proto = None
         want_ext = set()
-        for n, v in list(spec.get('extra', ())):
+        for n, v in list(spec.get('extra', ())) + list(spec.get('extra_last', ())):
             if n.lower() == 'sec-websocket-protocol':
                 want_proto = v
             if n.lower() == 'sec-websocket-extensions':
